@@ -63,6 +63,10 @@ def to_real(m, texts):
         return {"jsonrpc": "2.0", "method": m[1], "params": BAD_PARAMS[m[2] % len(BAD_PARAMS)] if len(m) > 2 else {}}
     if k == "A":
         return {"jsonrpc": "2.0", "id": m[1], "result": None}
+    if k == "H":
+        return {"jsonrpc": "2.0", "id": m[1], "method": "shutdown", "params": None}
+    if k == "Z":
+        return {"jsonrpc": "2.0", "method": "exit", "params": None}
     raise ValueError(m)
 
 
@@ -86,6 +90,10 @@ def to_model(m, clean):
         return "N"
     if k == "A":
         return "A %d" % m[1]
+    if k == "H":
+        return "H %d" % m[1]
+    if k == "Z":
+        return "Z"
     raise ValueError(m)
 
 
